@@ -607,6 +607,8 @@ def run(chk, facts, info):
     c03_recursion.run(chk, facts)
     c03_recursion.run_chain_stores(chk, facts)
     c03_recursion.run_counted_stores(chk, facts)
+    from . import c03_lastchar
+    c03_lastchar.run(chk, facts)
     chk.rule('C03-R13', 'in p2bin, p2hex, alink and dasl every ChkIO() call stands directly under a failure test of the '
              'operation it checks or is preceded on every path by errno = 0: a well-formed input is not rejected with '
              'an I/O error because of a stale errno', min_instances=100)
